@@ -99,12 +99,15 @@ def gen_c04(seed, tier="quick"):
     rng = random.Random(f"c04|{seed}")
     # every fourth scenario may contain connections with async_requests (an ordering dependency; no set_data calls)
     scn = families.random_scenario(rng, parallel_delays=False, p_async=0.3 if seed % 4 == 3 else 0.0, nsims=(2, 4), until=(2, 4),
-                                   p_extra_init=0.4 if seed % 4 == 1 else 0.0)
+                                   p_extra_init=0.4 if seed % 4 == 1 or seed % 5 == 4 else 0.0)
     scn["lazy"], scn["cache"] = True, True
     # every third scenario: produced values are None now and then (a legal value that must travel like any other)
     # ... and every third scenario: persistent values that RECUR (v, w, v, ...) instead of being unique per step
     case = {"id": [seed], "scn": scn, "seed": seed,
-            "behaviour": {"kind": "random", "seed": seed, "p_none": 0.25 if seed % 3 == 1 else 0.0, "recur": (2 + seed % 2) if seed % 3 == 2 else 0},
+            # ... and every fifth scenario: persistent values of hybrid simulators dated into the future by a constant offset (the
+            # first value is then due AFTER the consumer's first steps: declared initial data is what it must see until then)
+            "behaviour": {"kind": "random", "seed": seed, "p_none": 0.25 if seed % 3 == 1 else 0.0, "recur": (2 + seed % 2) if seed % 3 == 2 else 0,
+                          **({"future_pers": True, "p_future": 0.5, "future": [0, 1, 2]} if seed % 5 == 4 else {})},
             "policy": {"kind": "fifo"}}
     yield case
     for v in variants(case, rng, tier):
